@@ -160,6 +160,9 @@ def enumerate_sites(prog, body):
                 elif k == 'FromSlice':
                     if 'GenericArray' in cn:
                         kind = 'FromSlice'
+            # documented panics of dependencies the workspace calls on input-derived values
+            if kind is None and m == 'finish' and 'nom' in (t.ctrait + cn):
+                kind = 'NomFinish'      # nom::Finish::finish panics on Err(Incomplete), which the streaming DER combinators return on a short input
             if kind is None:
                 continue
             if kind == 'Panic' and t.cmethod in ('panic_fmt',) and False:
